@@ -69,7 +69,7 @@ def run():
         "sql.generic output is executed on SQLite",
     ]
     ck.finish(TRUSTED, "frame-corr = exhaustive: 12 functions x sorted/unsorted x grouped/ungrouped x {rows,range} x bounds {open,-2..2}^2 (incl. empty ranges: model WEmptyRange vs the compile error of both entry points) + rolling -1..3 + expanding + argument combinations (which argument wins, rejection before expanding/rolling, the spelling 0..-1, i64 edges), model (kind,start,end) vs RQ Compute.window and model clause text vs OVER (...) text; the same over a relation literal without rows, executed. "
-              "scope-corr = 10 directed + random nestings (depth <= 4) of group / window / join-argument bodies: model scope_run (partition, frame per column) vs RQ Compute.window and vs the OVER text. "
+              "scope-corr = 13 directed + random nestings (depth <= 4) of group / window / join-argument bodies: model scope_run (partition, frame per column) vs RQ Compute.window and vs the OVER text. "
               "End-to-end streams (each case = program x instance x target): frames = partition {none,g} x 9 sort modes x every frame x 3 of the 12 functions per program (quick: every frame under the modes id and c, a sample elsewhere; thorough: all, 4 function triples); first-last = first/last under every frame class; "
               "placement = derive/select/filter/sort-by-value x context before (filter/take/group-aggregate = an earlier SELECT) and after (filter/take/aggregate/group-aggregate/derive/second window); empty-range = rows/range arguments with start > end (expected: the modelled compile error; 0..-1: F54); sort-key = a window function written directly as sort key; random = prog.Gen pipelines with window steps over all functions/frames. "
               "distinct = hash of (program, target, instance); non-trivial = non-empty result or a failure")
